@@ -50,7 +50,9 @@ CONSTANTS Role,          \* "client" | "server"
 States == {"Closed", "WaitConnAck", "WaitICEA", "Open", "Closing", "WaitReturns", "WaitConnAckElect"}
 Base == {"CER", "CEA", "DWR", "DWA", "DPR", "DPA"}
 Msgs == {[k |-> k, valid |-> v, id |-> i] : k \in Kinds, v \in BOOLEAN, i \in IdSet}
-InjMsgs == {m \in Msgs : (m.k \in {"REQ", "ANS", "MIS", "DPA"} => m.valid) /\ (ValidOnly => m.valid)}     \* validity only matters where it is computed
+\* (validity only matters where it is computed; a DPA is injected in both forms all the same: Closing leaves on ANY DPA - a
+\* protocol-error answer with the E bit, one without a Result-Code, one from an alias of the peer - since nothing else ends it)
+InjMsgs == {m \in Msgs : (m.k \in {"REQ", "ANS", "MIS"} => m.valid) /\ (ValidOnly => m.valid)}
 
 VARIABLES st, recvQ, sendQ, active, peerGone, connected, refused, idle, running, released, out, dlv
 vars == <<st, recvQ, sendQ, active, peerGone, connected, refused, idle, running, released, out, dlv>>
